@@ -132,8 +132,8 @@ theorem data_programs_peak (p : AxCut.Prog) (args : List Word) (hooks : Bool) (b
     hcompM hcompX hrout hnd hd hentry hlen hc0 cfg MO hb0 (by omega) items hitems
   have hFc := En.fc
   -- the peak hypothesis on block-level states
-  have hPF : PeakFrom F cfg (mkProg cfg.mach items) routine (Program.ofOps ops) hooks p X0 Pk (A * fuel + 1) := by
-    intro n X' st' cfg' hs' hn R hC rs lin lazy live Fr I
+  have hPF : PeakFrom F cfg (mkProg cfg.mach items) routine (Program.ofOps ops) hooks p ⟨d0.ctx, args.map .int, d0.body⟩ X0 Pk (A * fuel + 1) := by
+    intro n X' st' cfg' hs' _ hn R hC rs lin live Fr I
     have hB : BoundaryOf p hooks routine ops cfg st' X' := ⟨F, cfg', hs', hFc, R⟩
     obtain ⟨Γ', ι, _, _, X3h, _⟩ := R
     exact hP (n0 + n) X' st' (stepN_trans cfg _ En.steps hn) hB _ _ (heapShapeAt_of_rel hFc.symm hk X3h.hrel I)
@@ -252,8 +252,8 @@ theorem data_programs_prefix (p : AxCut.Prog) (args : List Word) (hooks : Bool) 
   obtain ⟨F, pre, st0, h, n0, X0, a, En⟩ := entry_setup p args hooks body routine nargs d0 ops c' hsafe htp
     hcompM hcompX hrout hnd hd hentry hlen hc0 cfg MO hb0 (by omega) items hitems
   have hFc := En.fc
-  have hPF : PeakFrom F cfg (mkProg cfg.mach items) routine (Program.ofOps ops) hooks p X0 Pk (A * fuel + 1) := by
-    intro n X' st' cfg' hs' hn R hC rs lin lazy live Fr I
+  have hPF : PeakFrom F cfg (mkProg cfg.mach items) routine (Program.ofOps ops) hooks p ⟨d0.ctx, args.map .int, d0.body⟩ X0 Pk (A * fuel + 1) := by
+    intro n X' st' cfg' hs' _ hn R hC rs lin live Fr I
     have hB : BoundaryOf p hooks routine ops cfg st' X' := ⟨F, cfg', hs', hFc, R⟩
     obtain ⟨Γ', ι, _, _, X3h, _⟩ := R
     exact hP (n0 + n) X' st' (stepN_trans cfg _ En.steps hn) hB _ _ (heapShapeAt_of_rel hFc.symm hk X3h.hrel I)
